@@ -179,8 +179,8 @@ func NewDeadlineAt(unix int64) *Deadline {
 }
 
 // Unix returns the absolute time of the deadline.
-func (d *Deadline) Unix() int64 { return d.at.Unix() }
-func (d *Deadline) Expired() bool           { return d != nil && time.Now().After(d.at) }
+func (d *Deadline) Unix() int64   { return d.at.Unix() }
+func (d *Deadline) Expired() bool { return d != nil && time.Now().After(d.at) }
 
 // ---------------------------------------------------------------------------
 // journal: one slot file per worker; the case about to run is written before it runs.
